@@ -47,7 +47,7 @@ Emit == IF NProg >= 1 THEN PrintT(<<"CASE", ToJson(CaseRec)>>) ELSE TRUE
 PendConsistent ==       \* a pending lazy transpose is exactly the recorded permutation of the saved arrangement
     \A h \in 1..Len(live) : live[h].pend # NoPend =>
         LET pd == live[h].pend[1]
-        IN \/ ScalarEquiv(pd.shape) \/ IsIdent(pd.perm)
+        IN \/ ScalarEquiv(pd.shape) \/ pd.perm = <<>> \/ IsIdent(pd.perm)
            \/ /\ TransShape(pd.shape, pd.perm) = live[h].shape
               /\ TransCells(pd.shape, pd.cells, pd.perm) = live[h].cells
 ComposeLaw ==           \* transposing by p and then by q is transposing by the composed permutation
